@@ -26,7 +26,8 @@ def render(content, lay):
         if lay['comments']:
             out.append(lay.get('comment_indent', '') + '#MNEM.UNIT      VALUE : DESCRIPTION\n')
     head('~Version Information')
-    out.append(_line('VERS', '', '%.1f' % content['vers'], 'CWLS LOG ASCII STANDARD -VERSION %.1f' % content['vers'], lay))
+    # the version number may be written with more digits (the LAS 1.2 standard itself writes 1.20)
+    out.append(_line('VERS', '', lay.get('vers_fmt', '%.1f') % content['vers'], 'CWLS LOG ASCII STANDARD -VERSION %.1f' % content['vers'], lay))
     out.append(_line('WRAP', '', 'YES' if lay['wrap'] else 'NO', 'One line per depth step' if not lay['wrap'] else 'Multiple lines per depth step', lay))
     head('~Well Information')
     for m, u, v, d in content['well']:
